@@ -75,7 +75,17 @@ func runC05(w *World) {
 	vPassive := w.Chance(1, 3, "vpassive")
 	vLocalHold := Pick(w, "vhold", 9, 0, 3, 90)
 	v := e.NewPeer(PeerSpec{RemoteIP: "10.0.1.1", LocalAS: 65001, RemoteAS: 65101, Hold: vLocalHold, IdleHold: ih, ConnectRetry: cr, Passive: vPassive}, "10.0.0.9", Pick(w, "vrhold", uint16(9), 0, 3))
+	slowVictim := w.Chance(1, 3, "slow-victim-handler")
+	victimBusy, ending := 0, false
 	v.Plug.UpdFn = func(pl *Plug, ss *Session, idx int, b []byte) *corebgp.Notification {
+		if slowVictim && !ending && w.Chance(1, 3, "slow-now") {
+			// a slow application: whatever that does to this peer's own session, the
+			// other peers must not notice
+			w.Fault("victim-handler-slow")
+			victimBusy++
+			w.Sleep(time.Duration(w.Range(1000, 20000, "slowms")) * time.Millisecond)
+			victimBusy--
+		}
 		n := decodeAll(plain, addPath, b)
 		if n != nil && w.Chance(1, 2, "sendnotif") {
 			return n
@@ -85,7 +95,19 @@ func runC05(w *World) {
 	// bystander
 	b := e.NewPeer(PeerSpec{RemoteIP: "10.0.1.2", LocalAS: 65001, RemoteAS: 65102, Hold: 9, IdleHold: ih, ConnectRetry: cr}, "10.0.0.8", 9)
 	b.Site.DialPolicy = func(*DialRec) int { return 1 }
-	b.Site.OnConn = func(c *Conn) { b.Speaker.Serve(c, nil) }
+	b.Site.OnConn = func(c *Conn) {
+		// the bystander's remote sends UPDATEs now and then as well (its plugin's
+		// handler runs while the victim's may be busy)
+		w.Go("bystander-updates", func() {
+			for i := 0; i < 60 && !c.LocalClosed() && !c.RemoteClosed() && !w.Failed(); i++ {
+				w.Sleep(time.Duration(w.Range(1500, 6000, "bupdms")) * time.Millisecond)
+				if b.Plug.NEst >= 1 && !c.LocalClosed() {
+					c.Deliver(MkFrame(MsgUpdate, []byte{0, 0, 0, byte(i)}))
+				}
+			}
+		})
+		b.Speaker.Serve(c, nil)
+	}
 	for _, p := range []*PeerH{v, b} {
 		if err := e.Add(p); err != nil {
 			w.HarnessError("AddPeer: %v", err)
@@ -255,7 +277,10 @@ func runC05(w *World) {
 		w.Violate("C05/fresh-peer/not-established", "a fresh well-behaved peer added after the abuse (%v) was not Established within %v", desc, ih+cr+time.Second)
 		return
 	}
-	// (4) Close returns, nothing is left
+	// (4) Close returns, nothing is left (Close waits for a callback that is still
+	// running, so let a slow one finish first)
+	ending = true
+	w.WaitUntil("c05.victim-idle", time.Minute, func() bool { return victimBusy == 0 })
 	if !e.FinishRun() {
 		return
 	}
